@@ -223,11 +223,32 @@ macro_rules! run_cancel {
             let m = msg(0, 0, idx, *sz);
             frames.push(serde_json::to_vec(&m).unwrap());
             idx += 1;
-            // the peer reads concurrently now (a thread), so this send can complete
+            // the peer reads concurrently now (a thread) until this send has returned, so that the
+            // send can complete whatever the kernel buffer size and however slow the machine is
             let mut p2 = $peer.try_clone().unwrap();
-            let th = std::thread::spawn(move || drain(&mut p2, 150));
+            let stop = std::sync::Arc::new(std::sync::atomic::AtomicBool::new(false));
+            let stop2 = stop.clone();
+            let th = std::thread::spawn(move || {
+                p2.set_nonblocking(true).unwrap();
+                let mut out = Vec::new();
+                let mut buf = vec![0u8; 65536];
+                loop {
+                    match p2.read(&mut buf) {
+                        Ok(0) => break,
+                        Ok(n) => out.extend_from_slice(&buf[..n]),
+                        Err(_) => {
+                            if stop2.load(std::sync::atomic::Ordering::SeqCst) {
+                                break;
+                            }
+                            std::thread::sleep(Duration::from_millis(2));
+                        }
+                    }
+                }
+                out
+            });
             let t = $timeout;
-            let r = t($conn.send_call(&m), 5000).await;
+            let r = t($conn.send_call(&m), 20000).await;
+            stop.store(true, std::sync::atomic::Ordering::SeqCst);
             after_res.push(match r { Some(Ok(())) => "ok".to_string(), Some(Err(e)) => zv::err_name(&e), None => "timeout".into() });
             raw.extend(th.join().unwrap());
         }
